@@ -306,7 +306,7 @@ fn exhaustive(max_n: usize, dup_n: usize) -> Vec<Case> {
     out
 }
 
-fn random_case() -> impl Strategy<Value = Case> {
+pub fn random_case() -> impl Strategy<Value = Case> {
     let seq = (
         prop_oneof![Just(0u64), Just(1), Just(u64::MAX), any::<u64>()],
         prop_oneof![6 => 1usize..8, 2 => 8usize..40, 1 => 40usize..65],
